@@ -1,4 +1,4 @@
-import XtModel.Lemmas.CliRun
+import XtModel.Lemmas.CliOk
 
 /-!
 # C15 — Output of earlier inputs survives a later failure
@@ -14,7 +14,7 @@ failures of *inputs*; the descriptor is one that accepts every write
 are C16.  `hflush : w.perInputFlush = true` selects the real `main`;
 `no_flush_counterexample` is about the variant without the per-input flush.
 
-Obligations: `earlier_outputs_survive`, `earlier_outputs_survive_run`, `success_all_written`,
+Obligations: `earlier_outputs_survive`, `earlier_outputs_survive_run`, `success_all_written`, `success_all_written_any_fd`,
 `no_finished_input_in_buffer`, `no_flush_counterexample`.
 -/
 namespace Xt.Props.C15
@@ -70,6 +70,18 @@ theorem success_all_written (w : World) (hgood : GoodFd w.fd) (hflush : w.perInp
   rcases mainLoop_good w hgood hflush cf to paths with ⟨_, e2, e3, e4⟩ | ⟨e1, _⟩
   · exact ⟨e3, e4, e2⟩
   · rw [e1] at h0; simp at h0
+
+/-- The same **for every behaviour of the descriptor** (short writes, partial
+acceptance, …): a run of the real `main` that ends with status 0 has written
+every byte of every input's output. -/
+theorem success_all_written_any_fd (w : World) (hflush : w.perInputFlush = true)
+    (cf : Option Fmt) (to : Fmt) (paths : List InputPath)
+    (h0 : (mainLoop w cf to paths LoopSt.init).exit = .code 0) :
+    (mainLoop w cf to paths LoopSt.init).stdout = libOutput w (mainLoop w cf to paths LoopSt.init).calls ∧
+    (mainLoop w cf to paths LoopSt.init).calls.map (·.1) = paths ∧
+    (mainLoop w cf to paths LoopSt.init).out.buf = [] := by
+  obtain ⟨a, b, c⟩ := mainLoop_exit0_any w hflush cf to paths h0
+  exact ⟨a, c, b⟩
 
 /-- **Loop invariant, for every descriptor behaviour**: after each iteration
 that passes, xt's `BufWriter` is empty — no output of a finished input is ever
@@ -165,6 +177,7 @@ example : ∃ pre p post s' q, [InputPath.file ['a'], .file ['b']] = pre ++ p ::
 #print axioms earlier_outputs_survive
 #print axioms earlier_outputs_survive_run
 #print axioms success_all_written
+#print axioms success_all_written_any_fd
 #print axioms no_finished_input_in_buffer
 #print axioms no_flush_counterexample
 #print axioms with_flush_on_the_counterexample
